@@ -10,7 +10,7 @@ U2  each iteration of the interactive loops finishes and re-opens the message
 import os
 import re
 from . import common, gates
-from .common import AnalysisBroken, strip, const_value, enum_name, walk, calls
+from .common import AnalysisBroken, strip, const_value, enum_name, walk, calls, render
 
 EXPLANATION = (
     "U1: in the CFG of compFileFront, from the failing edge (error count non-zero) of every error test that is reachable "
@@ -430,6 +430,57 @@ def u11(rep):
     rep.floor("type forms constructed while reading a library", n, 2)
 
 
+def u12(rep):
+    """The interactive loop asks on stdin (`Redefine? (y/n)`); when the forms come from a file or a pipe the input ends.  A read of
+    stdin whose result is kept in a `char` cannot tell end of input from a character, and a loop `while (getchar() != '\\n')`
+    never ends once the input has: a session whose last form redefines a constant spun for ever (and ignored SIGTERM).  In
+    fint.c every getchar() result goes into an `int` that is compared with EOF, and every loop whose condition reads stdin
+    also tests EOF."""
+    f = common.extract("fint.c", all_trees=True)
+    n = 0
+    for name, fn in sorted(f.funcs.items()):
+        if "body" not in fn or not fn.get("file", "").endswith("fint.c"):
+            continue
+        reads = [c for c in calls(fn["body"], "getchar")]
+        if not reads:
+            continue
+        par = common.parents(fn["body"])
+
+        def has_eof(e):
+            return any(y.get("mac") == "EOF" or (y["k"] == "UnaryOperator" and y.get("op") == "-" and const_value(y["c"][0]) == 1)
+                       or const_value(y) == -1 for y in walk(e))
+        for c in reads:
+            n += 1
+            key = "stdin-read-sees-end-of-input:%s" % name
+            where = "fint.c:%d (%s)" % (c["l"], name)
+            cur, var, loopcond = c, None, None
+            while cur["id"] in par:
+                up = par[cur["id"]]
+                if up["k"] == "BinaryOperator" and up["op"] == "=" and any(y is cur for y in walk(up["c"][1])) and var is None:
+                    var = strip(up["c"][0])
+                if up["k"] in ("WhileStmt", "DoStmt", "ForStmt"):
+                    cond = up["c"][0] if up["k"] == "WhileStmt" else (up["c"][1] if up["k"] == "DoStmt" else up["c"][-3])
+                    if cond is not None and any(y is c for y in walk(cond)):
+                        loopcond = cond
+                    break
+                cur = up
+            if var is not None and var.get("tc") in ("i8", "u8"):
+                rep.violation("U12", key, where, "the character read from stdin is kept in `%s`, a char: end of input (EOF) is "
+                              "indistinguishable from a character, so the question is asked again for ever when the forms come "
+                              "from a file or a pipe that has ended" % render(var))
+            elif loopcond is not None and not has_eof(loopcond):
+                rep.violation("U12", key, where, "the loop `%s` reads stdin until a newline and does not test EOF: once the "
+                              "input has ended it never terminates (a piped session whose last form redefines a constant hangs, "
+                              "and not even SIGTERM ends it)" % render(loopcond)[:60])
+            elif var is not None and var["k"] == "DeclRefExpr" and not any(
+                    y["k"] == "BinaryOperator" and y["op"] in ("==", "!=") and has_eof(y) and
+                    any(z.get("n") == var["n"] for z in walk(y)) for y in walk(fn["body"])):
+                rep.violation("U12", key, where, "`%s`, read from stdin, is never compared with EOF in %s" % (var["n"], name))
+            else:
+                rep.ok("U12", key + "@%d" % c["l"])
+    rep.floor("reads of stdin in the interpreter's dialogue", n, 2)
+
+
 def u10(rep):
     """scoUndoState says `the previous step was rejected: take it back`.  scobindRestore reads it twice at the start of the next
     step -- to tell scobindRestoreIdInfo to drop the rejected step's identifier records, and to decide whether to call
@@ -766,6 +817,7 @@ def run(tier, only=None):
     u9(rep)
     u10(rep)
     u11(rep)
+    u12(rep)
     rep.analysed_count("functions", 3)
     rep.assumptions.append("the CFG search is path-insensitive except for the fintMode == FINT_LOOP assumption in U1")
     return rep
